@@ -368,6 +368,10 @@ def units(w):
         out.append(("post:some-sites-found(non-vacuous)", len(sites) >= 10, str(len(sites))))
         return out
     U.append(ast_unit("file-and-process-access-sites", fs_sites))
+    # modules are cached per base environment: what a non-secure interpreter has loaded is not reachable from a secure one
+    # (the allocation contracts of the root frame, shared with C10)
+    from . import c10
+    U.extend([u for u in c10.units(w) if u.name in ("functions.py::Environment.__init__", "functions.py::get_base_environment")])
     return U
 
 
@@ -438,6 +442,14 @@ def bounded(tier, seed):
     fails, ev = [], 0
     DENIED = ["file_input", "file_output", "file_copy", "file_delete", "file_exists", "file_info", "file_move", "list_dir", "make_dir", "execute", "run"]
     for legacy in (True, False):
+        # history: a non-secure interpreter of the same process has already loaded every module (what it loads must not
+        # become reachable from the secure one created afterwards)
+        trusted = interp.Interpreter(False, legacy)
+        for mod in ["IO", "OS", "Sys", "Core", "String", "List"]:
+            try:
+                trusted.interpret(f"require {mod}", "-")
+            except Exception:
+                pass
         I = interp.Interpreter(True, legacy)
         for n in names:
             for alias in (None, "al_" + n.lower()):
